@@ -1091,7 +1091,7 @@ func (r *c16Run) checkSession(s *c16SessState, qs []*c16Req, endMS int64) {
 	for _, rep := range s.reps {
 		for k, m := range rep.media {
 			if k == 0 {
-				if m.idx != n0 {
+				if m.idx != n0 && !(s.f.StatusCode && m.idx > n0) {
 					dir := "ahead"
 					if m.idx < n0 {
 						dir = "behind"
@@ -1107,7 +1107,7 @@ func (r *c16Run) checkSession(s *c16SessState, qs []*c16Req, endMS int64) {
 			if m.idx/nSegs != prev.idx/nSegs {
 				res.Count("probe.loop-wrap-crossed")
 			}
-			if m.idx != prev.idx+1 {
+			if m.idx != prev.idx+1 && !(s.f.StatusCode && m.idx > prev.idx+1) {
 				kind := "gap"
 				switch {
 				case m.idx == prev.idx:
@@ -1158,7 +1158,7 @@ func (r *c16Run) checkSession(s *c16SessState, qs []*c16Req, endMS int64) {
 		}
 	}
 	// (5) step mode: one segment per representation and accepted step
-	if s.cfg.stepMode() && !s.initFailed && !seqBad {
+	if s.cfg.stepMode() && !s.initFailed && !seqBad && !s.f.StatusCode {
 		for _, rep := range s.reps {
 			n := len(rep.media)
 			lo, hi := s.acceptedSteps-s.racySteps, s.acceptedSteps
@@ -1195,12 +1195,12 @@ func (r *c16Run) checkSession(s *c16SessState, qs []*c16Req, endMS int64) {
 		}
 	}
 	// (6) duration (a session that starts at the wrong segment is reported once, not per consequence)
-	if !seqBad {
+	if !seqBad && !s.f.StatusCode {
 		r.checkDuration(s, n0, endMS, anyMedia)
 	}
 	// (8) real-time mode: not before availability; on time when nothing holds the sender back
 	if !s.cfg.stepMode() && !s.initFailed && !s.initPending {
-		r.checkTiming(s, n0, t0, endMS, seqBad)
+		r.checkTiming(s, n0, t0, endMS, seqBad || s.f.StatusCode)
 	}
 }
 
